@@ -56,7 +56,10 @@ fuzz_target!(|data: &[u8]| {
         let (Ok(n), Ok(v)) = (http::header::HeaderName::from_bytes(n), http::HeaderValue::from_bytes(v)) else { continue };
         b = b.header(n, v);
     }
-    let Ok(req) = b.body(s3s::Body::from(body.to_vec())) else { return };
+    // in-memory body or a framed one (the adapter treats them differently)
+    let body = if sel & 0x80 == 0 { s3s::Body::from(body.to_vec()) } else { s3s::Body::http_body(http_body_util::Full::new(bytes::Bytes::copy_from_slice(body))) };
+    let Ok(req) = b.body(body) else { return };
+    common::count(0);
     let e = env();
     let svc = &e.services[usize::from(sel) % e.services.len()];
     let result = e.rt.block_on(async {
@@ -72,6 +75,7 @@ fuzz_target!(|data: &[u8]| {
     match result {
         Err(err) => common::violation("C04", "transport-level-failure", &err),
         Ok((status, Ok(body))) if status >= 400 => {
+            common::count(2);
             let text = String::from_utf8_lossy(&body);
             match xmlcanon::parse_error_doc(&text) {
                 Ok(d) if d.code.is_some() => {}
@@ -82,6 +86,6 @@ fuzz_target!(|data: &[u8]| {
             }
         }
         Ok((status, Err(err))) if status >= 400 => common::violation("C04", "error-body-stream-failed", &format!("{status}: {err}")),
-        _ => {}
+        _ => common::count(1),
     }
 });
